@@ -24,7 +24,7 @@ TRUSTED_BASE = [
     "Lean 4.33 kernel; axioms propext, Classical.choice, Quot.sound only (audited per theorem with #print axioms on every run)",
     "the Lean model lean/Gbo/Model is hand-written; its tie to /repo is the correspondence check of this run (differential testing)",
     "rndBin as a description of IEEE-754 round-to-nearest-even + - * / (validated bit-exactly by function-level correspondence)",
-    "robust::orient2d returns the exact sign; std BinaryHeap/Vec/Rc behave as documented; geo-types Polygon::new closes rings",
+    "robust::orient2d returns the exact sign while no product under-/overflows (non-zero coordinates within 2^-400..2^400; runs outside are detected and skipped); std BinaryHeap/Vec/Rc behave as documented; geo-types Polygon::new closes rings",
     "the Rust harness, the line protocol, the python orchestrator and generators",
 ]
 
@@ -317,7 +317,12 @@ def evaluate(prop, results, hangs, st, bound_check=False):
             st.distinct.add(h)
             if nontrivial_run(req, impl):
                 st.nontrivial.add(h)
-            if impl != model:
+            if impl != model and k in r.outrange:
+                # the sweep manufactured a coordinate (e.g. nextafter(0.0) = 2^-1074) on which the real
+                # orientation predicate under- or overflows; the model does not describe that (trusted base)
+                st.skipped_runs += 1
+                st.outcomes["out-of-range"] = st.outcomes.get("out-of-range", 0) + 1
+            elif impl != model:
                 if same_up_to_representation(req, impl, model):
                     # same rings / same map answers, differently arranged: a diagnostic, not a disagreement
                     st.agree += 1
@@ -365,7 +370,7 @@ def evaluate(prop, results, hangs, st, bound_check=False):
                 # runs exactly what the model of the unchanged algorithm does under the same rounding
                 refs = [t.lstrip("RE").split("~")[0] for t in ch.split()[1:]]
                 refs = [t for t in refs if t.isdigit() and t in r.reqs]
-                f.k_agree = all(r.impl.get(t) == r.model.get(t) or r.impl.get(t) == "MODELONLY"
+                f.k_agree = all(r.impl.get(t) == r.model.get(t) or r.impl.get(t) == "MODELONLY" or t in r.outrange
                                 or same_up_to_representation(r.reqs[t], r.impl.get(t) or "", r.model.get(t) or "") for t in refs)
                 findings.append(f)
         if prop == "C16" and not invalid:
@@ -431,10 +436,10 @@ def structural_pairs():
 def build_cases(prop, tier, rng):
     """returns list of (label, [Case], dbg)"""
     q = tier == "quick"
-    fams_all = ["g1", "g2", "g3", "g4", "g1", "g2", "g10", "g11"]
+    fams_all = ["g1", "g2", "g3", "g4", "g12", "g13", "g14", "g2", "g10", "g11", "g1", "g12", "g13"]
     out = []
     if prop in ("C01", "C02", "C04"):
-        n = 240 if q else 6000
+        n = 300 if q else 7200
         pairs = corpus_pairs(150) + structural_pairs() + gen_pairs(rng, fams_all + (["g9"] if prop == "C01" else []), n)
         out.append(("core", plans.plan_core(prop, rng, pairs), False))
         if prop == "C01" and not q:
@@ -459,7 +464,7 @@ def build_cases(prop, tier, rng):
     elif prop == "C07":
         n = 60 if q else 1500
         pp = [("g1",) + plans.single_poly_pairs(rng, "g1") for _ in range(n // 3)]
-        out.append(("c07", plans.plan_c07(rng, corpus_pairs(80) + pp + gen_pairs(rng, fams_all, n)), False))
+        out.append(("c07", plans.plan_c07(rng, corpus_pairs(80) + pp + gen_pairs(rng, fams_all + ["g14"], n)), False))
     elif prop == "C08":
         n = 60 if q else 1500
         out.append(("c08", plans.plan_c08(rng, corpus_pairs(80) + gen_pairs(rng, fams_all, n)), False))
@@ -493,6 +498,7 @@ def build_cases(prop, tier, rng):
     elif prop == "C16":
         out.append(("pairs", extra.function_cases(rng, 1500 if q else 40000, prec="f64"), False))
         out.append(("pairs-dbg", extra.function_cases(rng, 300 if q else 5000, prec="f64", dbg=True), True))
+        out.append(("t-junctions", extra.tjunction_cases(rng, 12000 if q else 200000), False))
     elif prop == "C17":
         out.append(("histories", extra.splay_cases(rng, 2000 if q else 20000, q), False))
         if not q:
